@@ -68,7 +68,8 @@ static int cmp_key(const void *a, const void *b, void *p)
     VRT_CHECK(p == (void *)&nkeys, "slist.sort.cmp-priv", "comparison called with wrong priv %p", p);
     VRT_CHECK(x->magic == MAGIC && y->magic == MAGIC, "slist.sort.cmp-non-element",
               "comparison called with a non-element");
-    return (x->key > y->key) - (x->key < y->key);
+    /* only the sign is specified: the magnitude is unrelated to the key distance */
+    return ((x->key > y->key) - (x->key < y->key)) * (1 + (x->id * 131 + y->id * 31) % 997);
 }
 
 static void st_create(int scope)
